@@ -118,8 +118,9 @@ Definition wlocked (s : st) : bool := wheld s || wwait s.
 Definition step_app (c : lcfg) (s : st) : option st :=
   match a_pc s with
   | A0 => if a_i s =? n_q c then Some (set_a_pc AFin s)
-          else Some (set_a_pc (if v_norlock (l_var c) then A2 else A1) (set_queued (S (queued s)) s))
-  | A1 => if wlocked s then None else Some (set_a_pc A2 (set_readers (S (readers s)) s))   (* awaiting.RLock *)
+          else Some (set_a_pc A1 (set_queued (S (queued s)) s))                            (* handleModifyRequest *)
+  | A1 => if v_norlock (l_var c) then Some (set_a_pc A2 s)
+          else if wlocked s then None else Some (set_a_pc A2 (set_readers (S (readers s)) s))   (* awaiting.RLock *)
   | A2 => Some (set_a_pc (if sendExit s then A4 else A3) s)                                (* chIsClosed(sendExitCh) *)
   | A3 => if cnt s <? cap then Some (set_a_pc A4 (set_cnt (S (cnt s)) s)) else None        (* modifyCh <- m *)
   | A4 => Some (set_a_pc A0 (set_a_i (S (a_i s))
